@@ -1932,6 +1932,8 @@ def rule_typedef_yields_one_instantiation(ctx, rep: Report, rid="N11"):
         return SampleObj(__kind__="Typename", name=name, instantiations=list(inst), namespaces=[])
     A, B, C = tn("A"), tn("B"), tn("C")
     cls_t = SampleObj(__kind__="Class", name="Foo", template=SampleObj(__kind__="Template", typenames=["T"], instantiations=[[A, B]]))
+    # two parameters whose names sort the other way round than they are declared: the combinations follow the declaration
+    cls_2 = SampleObj(__kind__="Class", name="Couple", template=SampleObj(__kind__="Template", typenames=["POSE", "POINT"], instantiations=[[A, B], [C, tn("D")]]))
     cls_p = SampleObj(__kind__="Class", name="Plain", template="")
     fun_t = SampleObj(__kind__="GlobalFunction", name="twice", template=SampleObj(__kind__="Template", typenames=["T"], instantiations=[[A]]))
     fwd = SampleObj(__kind__="ForwardDeclaration", name="Ext", template="")
@@ -1940,7 +1942,8 @@ def rule_typedef_yields_one_instantiation(ctx, rep: Report, rid="N11"):
         return SampleObj(__kind__="TypedefTemplateInstantiation", typename=tn(target_name, *args), new_name=new_name)
     td_listed, td_new, td_fun, td_fwd, td_inner = td("Foo", "FooA", A), td("Foo", "FooC", C), td("twice", "twiceA", A), td("Ext", "ExtB", B), td("Foo", "InnerFoo", B)
     inner = SampleObj(__kind__="Namespace", name="inner", content=[td_inner], parent="")
-    root = SampleObj(__kind__="Namespace", name="", content=[cls_t, td_listed, cls_p, fun_t, td_new, td_fun, fwd, td_fwd, inner], parent="")
+    # (typedefs of a foreign template, a function template and a class template, in that order: kinds do not regroup them)
+    root = SampleObj(__kind__="Namespace", name="", content=[cls_t, fwd, td_fwd, cls_p, fun_t, td_fun, td_listed, cls_2, td_new, inner], parent="")
     targets = {}
     for t_, x_ in ((td_listed, cls_t), (td_new, cls_t), (td_fun, fun_t), (td_fwd, fwd), (td_inner, cls_t)):
         targets[id(t_)] = x_          # the table may be keyed by the typedef's id or by the typedef itself
@@ -1950,7 +1953,10 @@ def rule_typedef_yields_one_instantiation(ctx, rep: Report, rid="N11"):
     if len(ps) > 1:
         env[ps[1]] = targets
     try:
-        mini_exec(fn, env, budget=20000, functions=dict(mi.functions), ctors=ctor_names)
+        fns_ = dict(prog.module(f"{TI}/helpers.py").functions)
+        fns_.update(mi.functions)
+        consts_ = {st.targets[0].id: st.value for st in mi.tree.body if isinstance(st, ast.Assign) and len(st.targets) == 1 and isinstance(st.targets[0], ast.Name)}
+        mini_exec(fn, env, budget=40000, functions=fns_, ctors=ctor_names, consts=consts_)
     except (_PathEval.Unknown, _Raised) as ex:
         # written with constructs the interpreter does not follow: N2 still decides the typedef branch by structure
         rep.add(rid, "typedef:instantiate_namespace evaluated on a sample namespace", True, f"not evaluable ({ex}); N2 decides by structure", loc, nontrivial=False)
@@ -1978,6 +1984,15 @@ def rule_typedef_yields_one_instantiation(ctx, rep: Report, rid="N11"):
                 f"`typedef {t_['typename']['name']}<..> {t_['new_name']}` yields {len(mine)} instantiation(s) carrying its name"
                 + ("" if len(mine) != 1 else " but not built from the named template / the typedef's arguments") +
                 ": the name the interface file introduces does not exist in the wrappers (or exists twice)", loc)
+    order = [next((p for p in parts(x) if isinstance(p, str)), None) for x in made if any(isinstance(p, str) for p in parts(x))]
+    order = [o for o in order if o in ("ExtB", "twiceA", "FooA", "FooC")]
+    rep.add(rid, "typedef:the typedef'd instantiations follow the order of the typedefs", order == ["ExtB", "twiceA", "FooA", "FooC"],
+            f"typedefs declared in the order ExtB, twiceA, FooA, FooC are instantiated in the order {order}: the kind of the template (class, function, foreign) "
+            f"decides the position instead of the interface file", loc)
+    combos = [[q["name"] for q in p] for x in made if x["__kind__"] == "InstantiatedClass" and any(p is cls_2 for p in parts(x)) for p in parts(x) if isinstance(p, list)]
+    rep.add(rid, "enumerated combinations:first parameter slowest, in the order the lists are written (whatever the parameters are called)",
+            combos == [["A", "C"], ["A", "D"], ["B", "C"], ["B", "D"]],
+            f"`template<POSE={{A,B}}, POINT={{C,D}}>` is instantiated as {combos}: the sequence depends on how the parameters are spelled - renaming them changes the output", loc)
     listed = [x for x in made if x["__kind__"] == "InstantiatedClass" and any(p is cls_t for p in parts(x)) and len(parts(x)) == 2]
     rep.add(rid, "typedef:the template's own combinations are instantiated besides the typedefs", len(listed) == 2,
             f"{len(listed)} instantiation(s) from the lists of `template<T={{A, B}}> class Foo`, 2 expected", loc, nontrivial=False)
